@@ -76,6 +76,11 @@ class C12(InvProp):
         return out + super().corpus()
 
     def cases(self, tier, seed):
+        from .. import geninv2 as _GI2
+        for j in range(10 if tier == "quick" else 100):
+            c = _GI2.linked_inventory(Rng(seed, "C12:linked", j))
+            c["repeat"] = 1
+            yield c
         N = 60 if tier == "quick" else 400
         for i in range(N):
             r = Rng(seed, "C12", i)
